@@ -603,6 +603,9 @@ class List(list, base.Symbolic, pg_typing.CustomTyping):
 
     old_value = self.sym_getattr(index)
     super().__delitem__(index)
+    # Detach the removed value from the object tree.
+    if isinstance(old_value, base.TopologyAware):
+      old_value.sym_setparent(None)
     self._update_children_index()
 
     if flags.is_change_notification_enabled():
@@ -737,6 +740,10 @@ class List(list, base.Symbolic, pg_typing.CustomTyping):
     if self._value_spec and self._value_spec.min_size > 0:
       raise ValueError(
           f'List cannot be cleared: min size is {self._value_spec.min_size}.')
+    # Detach the removed values from the object tree.
+    for item in self.sym_values():
+      if isinstance(item, base.TopologyAware):
+        item.sym_setparent(None)
     super().clear()
 
   def sort(self, *, key=None, reverse=False) -> None:
